@@ -27,6 +27,9 @@ class XRefNode(ConfigScalar(str)):
         visited = [self]
         curr = self
         while isinstance(curr, XRefNode):
+            if not NodePath.get_list_path(str(curr)):
+                # the empty path names the root, which contains the reference itself
+                raise ValueError(f'Circular reference detected (a reference to the root of the config) while following a chain of references: {chain}')
             try:
                 ref = ctx.get_node(curr)
             except KeyError:
